@@ -510,3 +510,12 @@ _OPTS_RULE = (" || the options as the REAL binary parses them (mode opts; the sc
     "at most -j and the pool's depth (an upper bound only: timing can lower the count, never raise it); thorough: + 60 / 30 random combinations.")
 PROPS["C04"]["rule"] += _OPTS_RULE
 PROPS["C05"]["rule"] += _OPTS_RULE
+
+PROPS["C18"]["modes"] = PROPS["C18"]["modes"] + ["opts"]
+PROPS["C18"]["needs_n2bin"] = True
+PROPS["C18"]["nontrivial"]["opts"] = (lambda case, impl: True)
+PROPS["C18"]["monitors"] = PROPS["C18"]["monitors"] + ["cliSelectsOnlyPlace"]
+PROPS["C18"]["rule"] += (" || -C / -f / builddir / positional targets as the REAL binary parses them (mode opts): two directories x two manifests "
+    "(one setting builddir) whose commands write a marker naming directory and manifest; -C d, -f alt.ninja, both in either order, x 10 target "
+    "lists (none -> `default a`, a, b, both in either order, repeated, ./b, an unknown name alone / first / last); expected exactly: the outputs "
+    "built, in which directory, with which manifest's command, where the log lies, exit status 1 and nothing built when a name is unknown.")
